@@ -156,7 +156,7 @@ def parseInit (ws : List String) : Option Env :=
       let single := kind == "kl" || kind == "tkl"
       let multi := kind == "tkl" || kind == "tkg"
       let known := single || kind == "klg" || kind == "tkg"
-      if known && (hash == "mod" || hash == "xh" || hash == "str") && n ≥ 1 && n ≤ 100 && nT ≥ 1 && nT ≤ 16 && nK ≥ 1 && nK ≤ 16 && shs.length == nK && shs.all (· < n) && (!single || n == 1)
+      if known && (hash == "mod" || hash == "xh" || hash == "str") && n ≥ 1 && n ≤ 100 && nT ≥ 1 && nT ≤ 32 && nK ≥ 1 && nK ≤ 32 && shs.length == nK && shs.all (· < n) && (!single || n == 1)
       then some ⟨multi, n, shs, nT, nK⟩ else none
     | _, _, _, _ => none
   | _ => none
